@@ -384,6 +384,18 @@ def run(ctx):
             report("failing-input", f"constructor with early return ({name}): {what}",
                    {"source": src, "config": cfg.name, "ctor_arg_a": a, "problems": [(x[0], x[2], x[3]) for x in pr[:8]]},
                    key="venom-ctor-early-return-deploys-empty" if cfg.venom else f"c13:early-return:{cfg.name}:{name}")
+        pr, n_cc, stc = c13_ext.call_ctor_cases(ctx, cfg, rnd, exact_code, selector, compile_src)
+        if pr and all(x[2].startswith("compile failed") for x in pr) and (cfg.flags or cfg.inline_threshold is not None):
+            ext.setdefault("compile_skips", {})[f"callctor:{cfg.name}"] = pr[0][2][:120]
+            pr = []
+        ext["call_ctor_deployments"] = ext.get("call_ctor_deployments", 0) + n_cc
+        for k, v in stc.items():
+            ext.setdefault("call_ctor_stub", {})[k] = ext.get("call_ctor_stub", {}).get(k, 0) + v
+        if pr:
+            var, src, what = pr[0]
+            report("failing-input", "constructor that receives return data before the deploy epilogue: " + what[:200],
+                   {"source": src, "oracle": c13_ext.ORACLE, "config": cfg.name, "problems": [(x[0], x[2]) for x in pr[:8]]},
+                   key=f"c13:callctor:{cfg.name}:{var}")
         pr, st = c13_ext.msize_case(ctx, cfg, rnd, exact_code, selector, compile_src)
         if compile_skip(pr, cfg, "msize"):
             pr = []
@@ -465,7 +477,7 @@ def run(ctx):
         ctx.violation("correspondence-broken", "no constructor could be compiled", {"problems": problems[:5]})
 
     ctx.corr.update({
-        "evaluations": n_deploy + n_fail + n_bp + n_off + len(bp_cases) + ext["module_deployments"] + ext["msize_ctor_deployments"] + ext.get("early_return_deployments", 0),
+        "evaluations": n_deploy + n_fail + n_bp + n_off + len(bp_cases) + ext["module_deployments"] + ext["msize_ctor_deployments"] + ext.get("early_return_deployments", 0) + ext.get("call_ctor_deployments", 0),
         "distinct_nontrivial": n_deploy + n_fail + n_bp + ext["module_deployments"] + ext["msize_ctor_deployments"],
         "rule": "deployments of distinct generated (constructor source, configuration, argument values); failing "
                 "deployments counted separately; + offset-function grid cases and blueprint byte comparisons",
